@@ -24,11 +24,16 @@ PAY_KINDS = ["f", "i", "s", "u", "d", "o", "b"]
 def _plan(draw, max_rows):
     n = draw(gen.nrows(max_rows))
     nk = draw(st.sampled_from([1, 1, 2, 2, 3]))
+    big = draw(st.integers(0, 11)) == 0
+    if big:
+        # > 16 rows, one key with few distinct values and no missing cell: where an unstable sort shows
+        n = draw(st.integers(17, 40))
+        nk = 1
     cols, keys = [], []
     for j in range(nk):
         kind = draw(st.sampled_from(KEY_KINDS))
-        mode = draw(st.sampled_from(["tight", "tight", "tight", "pool", "wide"]))
-        cols.append({"name": f"k{j}", "kind": kind, "vals": draw(gen.values(kind, n, mode=mode))})
+        mode = "tight" if big else draw(st.sampled_from(["tight", "tight", "tight", "pool", "wide"]))
+        cols.append({"name": f"k{j}", "kind": kind, "vals": draw(gen.values(kind, n, mode=mode, na="none" if big else None))})
         keys.append([f"k{j}", draw(st.sampled_from([1, -1]))])
     for j in range(draw(st.integers(0, 2))):
         kind = draw(st.sampled_from(PAY_KINDS))
